@@ -1,10 +1,10 @@
 package rules
 
 import (
-	"math/big"
 	"fmt"
 	"go/token"
 	"go/types"
+	"math/big"
 	"os"
 	"sort"
 	"strings"
@@ -26,7 +26,7 @@ func init() {
 			"(f) reset_relays empties the inherited relays before they are merged, a disabled proposer-relay is not kept, unknown addresses are generated through the tier chain, unmentioned inherited relays are kept; " +
 			"(g) the version dispatch has arms for the unversioned and version-2 documents and an error default; (h) the top-level fee recipient and gas limit fall back to Vouch's own values when absent; " +
 			"(i) for every JSON shadow struct the fields written by MarshalJSON are the fields read by UnmarshalJSON and unit scalings are inverse pairs (Milliseconds()/x time.Millisecond, Div(weiPerETH)/Mul(weiPerETH)). " +
-			"Added with the third seeding round: (k) a legacy builder's relay list is read only under its own Enabled flag; (l) a resolver that remembers results keys them by every parameter it uses; (b) also accepts a first-present helper called with the tiers in precedence order. Added with the fourth seeding round: (m) the proposers list keeps document order; (n) tiers are written least specific first onto a relay object. Added with the fifth seeding round: (f, extended) every relay inherited from the fallback is recorded in the result; (o) nothing is copied or stored through a pointer-typed field of a relay result. Added with the sixth seeding round and the false-alarm regression: (p) numbers in the configuration documents are parsed with base 10; (q) every return of the account-naming helper is the joined wallet/account form; (g) also recognises a dispatch table keyed by version. Added with the ninth seeding round: (r) the factor between ether (as configured) and wei (as compared) is 10^18 wherever it is declared. Added with the tenth seeding round: (s) every non-nil result of the block relay's ProposerConfig is the configurator's answer to this call, or the fallback literal. NOT decided: the value-level lattice for arbitrary documents, regexp semantics, round-trip equality of meaning.",
+			"Added with the third seeding round: (k) a legacy builder's relay list is read only under its own Enabled flag; (l) a resolver that remembers results keys them by every parameter it uses; (b) also accepts a first-present helper called with the tiers in precedence order. Added with the fourth seeding round: (m) the proposers list keeps document order; (n) tiers are written least specific first onto a relay object. Added with the fifth seeding round: (f, extended) every relay inherited from the fallback is recorded in the result; (o) nothing is copied or stored through a pointer-typed field of a relay result. Added with the sixth seeding round and the false-alarm regression: (p) numbers in the configuration documents are parsed with base 10; (q) every return of the account-naming helper is the joined wallet/account form; (g) also recognises a dispatch table keyed by version. Added with the ninth seeding round: (r) the factor between ether (as configured) and wei (as compared) is 10^18 wherever it is declared. Added with the tenth seeding round: (s) every non-nil result of the block relay's ProposerConfig is the configurator's answer to this call, or the fallback literal. Added with the eleventh seeding round: (t) outside UnmarshalJSON no function of the document packages writes into a decoded configuration document (fields, maps or sync.Map kept in it); (s, tightened) a copy of a remembered answer is not an answer built on the spot. NOT decided: the value-level lattice for arbitrary documents, regexp semantics, round-trip equality of meaning.",
 		Technique: "guard/edge-deletion queries keyed by access path (tested-X-used-X, tier precedence), string-shape analysis, writer/reader field-table agreement of sibling marshalers, loop-exit path queries",
 		Rule:      "one obligation per dereference (a), per tiered store (b), per options call (c), per match site (d), per compiled specifier (e), per relay-set operation (f), per version arm (g), per fallback use (h), per marshaler pair (i)",
 	})
@@ -61,12 +61,27 @@ func runC10(p *core.Prog, r *core.Report, tier string) {
 			}
 			fresh := true
 			what := ""
-			okValue := func(v ssa.Value) bool {
+			var okValue func(v ssa.Value) bool
+			okValue = func(v ssa.Value) bool {
 				if core.IsNilConst(v) {
 					return true
 				}
-				if _, isFresh := v.(*ssa.Alloc); isFresh {
-					return true // the fallback settings, built on the spot
+				if al, isFresh := v.(*ssa.Alloc); isFresh {
+					// the fallback settings, built on the spot field by field — not a copy of something kept elsewhere
+					// (`c := *cached; return &c`): a whole value stored into it is this call's answer, or nothing
+					if al.Referrers() != nil {
+						for _, ref := range *al.Referrers() {
+							st, ok := ref.(*ssa.Store)
+							if !ok || st.Addr != ssa.Value(al) {
+								continue
+							}
+							ld, isLoad := st.Val.(*ssa.UnOp)
+							if !isLoad || ld.Op != token.MUL || !okValue(ld.X) {
+								return false
+							}
+						}
+					}
+					return true
 				}
 				if ex, isEx := v.(*ssa.Extract); isEx {
 					if call, ok := ex.Tuple.(*ssa.Call); ok && core.MethodName(call.Common()) == "ProposerConfig" {
@@ -118,6 +133,89 @@ func runC10(p *core.Prog, r *core.Report, tier string) {
 		}
 	} else {
 		r.Undecide("C10.s", "services/blockrelay/standard.Service.ProposerConfig", "", "anchor not found")
+	}
+
+	// ---- (t) resolving settings leaves the configuration document as it was decoded: outside the decoders
+	// (UnmarshalJSON) no function of the document packages stores into a field of a document type or into a sync.Map
+	// kept in one — an answer remembered inside the document is served to the next lookup, which may differ in the
+	// part of (account, key) that the memo is not filed under ----
+	nDocWrites := 0
+	for _, rel := range []string{"services/blockrelay/v1", "services/blockrelay/v2"} {
+		pk := p.ByPath[core.ModulePath+"/"+rel]
+		if pk == nil || pk.Types == nil {
+			continue
+		}
+		isDocType := func(t types.Type) bool {
+			if pt, ok := t.Underlying().(*types.Pointer); ok {
+				t = pt.Elem()
+			}
+			nt, ok := t.(*types.Named)
+			if !ok || nt.Obj().Pkg() != pk.Types {
+				return false
+			}
+			_, isStruct := nt.Underlying().(*types.Struct)
+			return isStruct && !strings.HasSuffix(nt.Obj().Name(), "JSON")
+		}
+		for _, f := range p.FuncsIn(rel) {
+			if f.Name() == "UnmarshalJSON" || (f.Parent() != nil && f.Parent().Name() == "UnmarshalJSON") {
+				continue
+			}
+			core.EachInstr(f, func(in ssa.Instruction) {
+				var fa *ssa.FieldAddr
+				what := ""
+				switch x := in.(type) {
+				case *ssa.Store:
+					fa, _ = x.Addr.(*ssa.FieldAddr)
+					what = "stores into"
+				case *ssa.MapUpdate:
+					if ld, ok := x.Map.(*ssa.UnOp); ok && ld.Op == token.MUL {
+						fa, _ = ld.X.(*ssa.FieldAddr)
+					}
+					what = "adds to the map in"
+				case *ssa.Call:
+					callee := x.Call.StaticCallee()
+					if callee != nil && callee.Pkg != nil && callee.Pkg.Pkg.Path() == "sync" && len(x.Call.Args) > 0 {
+						switch callee.Name() {
+						case "Store", "LoadOrStore", "Swap", "CompareAndSwap", "Delete", "LoadAndDelete":
+							fa, _ = x.Call.Args[0].(*ssa.FieldAddr)
+							what = "keeps a value in"
+						}
+					}
+				}
+				if fa == nil || !isDocType(fa.X.Type()) {
+					return
+				}
+				// a document under construction in this function (a fresh literal) is not the shared one
+				if al, ok := fa.X.(*ssa.Alloc); ok && al.Parent() == f {
+					return
+				}
+				// only the receiver / a parameter / something reached from them is the decoded document
+				root := fa.X
+				for i := 0; i < 6; i++ {
+					switch y := root.(type) {
+					case *ssa.FieldAddr:
+						root = y.X
+					case *ssa.UnOp:
+						root = y.X
+					case *ssa.IndexAddr:
+						root = y.X
+					case *ssa.Lookup:
+						root = y.X
+					}
+				}
+				if _, isParam := root.(*ssa.Parameter); !isParam {
+					if _, isFree := root.(*ssa.FreeVar); !isFree {
+						return
+					}
+				}
+				nDocWrites++
+				id, _, _ := core.FieldOfAddr(fa)
+				r.Violate("C10.t", fmt.Sprintf("%s|document-left-as-decoded|%s#%d", core.FnKey(f), id.Name, nDocWrites), p.Pos(in.Pos()), core.FnKey(f)+" "+what+" the field "+id.String()+" of the decoded configuration document: what a lookup leaves there is served to later lookups, which may differ in the account or key it is not filed under (and the document is shared by concurrent lookups)")
+			})
+		}
+	}
+	if nDocWrites == 0 {
+		r.Hold("C10.t", "documents-left-as-decoded", "", "outside UnmarshalJSON no function of services/blockrelay/v1 and v2 writes into a decoded configuration document")
 	}
 
 	// ---- (r) amounts are configured in ether and compared in wei: the conversion factor is 10^18 wherever it is
